@@ -1,36 +1,44 @@
 (* C27 - Resource-pack prompts never block and follow the client-version rules.
    Only statements and `exact`; the proofs are in Proofs/C27*.v.
 
-   [spec_run proto hb h] is the record (events, result, applied and pending packs per call) of the
-   history h on the handler for a client of protocol [proto] ([hb]: a backend connection is in
-   flight), computed by the handlers written in the lock language of Model/ResourcePack.v with
-   the lock nesting of the repaired code; for 1.20.3+ this is today's modern handler unchanged.
-   [impl_run] is the same for today's legacy handlers (lock nesting of handler_legacy.go).   *)
+   Baseline: /repo after fix commit c3c83c0 (findings C27-1..3 repaired).
+   [impl_run proto hb h] is the record (events, result, applied and pending packs per call) of the
+   history h on the handler resourcepack.NewHandler returns for a client of protocol [proto]
+   ([hb]: a backend connection is in flight), computed by the handlers written in the lock language
+   of Model/ResourcePack.v with the lock nesting of the code as it is now.  It is what the property
+   demands ([impl_is_spec]).  [old_run] is the same for the legacy handlers BEFORE the fix; the
+   refutations at the end are facts about that pre-fix code. *)
 From Coq Require Import List NArith Bool.
 From Verif Require Import Model.ResourcePack Proofs.C27_Lang Proofs.C27_Legacy Proofs.C27_Modern Proofs.C27.
 Import ListNotations.
 Open Scope N_scope.
 
+(* today's code is the demanded behaviour (both are the lock-language handlers with the current nesting
+   and all repairs present) *)
+Theorem impl_is_spec : forall proto hb h, impl_run proto hb h = spec_run proto hb h.
+Proof. exact impl_is_spec_proof. Qed.
+Print Assumptions impl_is_spec.
+
 (* "never deadlocks for any client version (each call returns ...)": for every protocol and every
    history, every call of the history has a record and none is stuck (a non-reentrant lock taken
    twice), out of fuel or an error. *)
 Theorem never_stuck : forall proto hb h,
-  length (spec_run proto hb h) = length h /\
-  Forall (fun x => s_ret x <> RStuck /\ s_ret x <> ROutOfFuel /\ s_ret x <> RErr) (spec_run proto hb h).
+  length (impl_run proto hb h) = length h /\
+  Forall (fun x => s_ret x <> RStuck /\ s_ret x <> ROutOfFuel /\ s_ret x <> RErr) (impl_run proto hb h).
 Proof. exact never_stuck_proof. Qed.
 Print Assumptions never_stuck.
 
 (* ... and the only call that panics is Remove on a client below 1.20.3 (documented: "Cannot remove a
    ResourcePack from a legacy client"). *)
 Theorem panic_only_remove_on_legacy : forall proto hb h k x,
-  nth_error (spec_run proto hb h) k = Some x -> s_ret x = RPanic ->
+  nth_error (impl_run proto hb h) k = Some x -> s_ret x = RPanic ->
   is_legacy proto = true /\ exists id, nth_error h k = Some (Remove id).
 Proof. exact panic_only_remove_proof. Qed.
 Print Assumptions panic_only_remove_on_legacy.
 
 (* the lock-language handlers compute the pure state machines the remaining theorems are proved on *)
 Theorem lock_language_refines_pure_legacy : forall e c h s,
-  run_lang (l_exec RepairedNesting e c) l_papp l_ppend Free s h = run_lpure e c s h.
+  run_lang (l_exec CurrentNesting e c) l_papp l_ppend Free s h = run_lpure e c s h.
 Proof. exact run_legacy_pure. Qed.
 Print Assumptions lock_language_refines_pure_legacy.
 Theorem lock_language_refines_pure_modern : forall e h s,
@@ -41,14 +49,14 @@ Print Assumptions lock_language_refines_pure_modern.
 (* "For clients before 1.20.3 at most one prompt is outstanding": after every call of every history
    the number of requests sent minus final responses received is at most one. *)
 Theorem single_outstanding : forall proto hb h,
-  is_legacy proto = true -> Forall (fun c => c <= 1) (outstanding 0 h (spec_run proto hb h)).
+  is_legacy proto = true -> Forall (fun c => c <= 1) (outstanding 0 h (impl_run proto hb h)).
 Proof. exact single_outstanding_proof. Qed.
 Print Assumptions single_outstanding.
 
 (* "packs are prompted in queue order": the serial numbers (= order of the queue calls) of all
    requests of a history are strictly increasing, so no pack is prompted twice or out of order. *)
 Theorem fifo_prompts : forall proto hb h,
-  is_legacy proto = true -> increasing (prompt_uids (all_events (spec_run proto hb h))) = true.
+  is_legacy proto = true -> increasing (prompt_uids (all_events (impl_run proto hb h))) = true.
 Proof. exact fifo_prompts_proof. Qed.
 Print Assumptions fifo_prompts.
 
@@ -58,7 +66,7 @@ Print Assumptions fifo_prompts.
    1.17+ (protocol 755+) client. *)
 Theorem auto_decline_only_after_decline : forall proto hb h k x p,
   is_legacy proto = true ->
-  nth_error (spec_run proto hb h) k = Some x -> In (GAuto p) (s_events x) ->
+  nth_error (impl_run proto hb h) k = Some x -> In (GAuto p) (s_events x) ->
   last_decision None (firstn (S k) h) = Some false /\ (force p && (755 <=? proto) = false).
 Proof. exact auto_decline_proof. Qed.
 Print Assumptions auto_decline_only_after_decline.
@@ -67,13 +75,13 @@ Print Assumptions auto_decline_only_after_decline.
    that very call unless the client's last answer was a decline and the pack is not forced-on-1.17+. *)
 Theorem idle_queue_is_prompted : forall proto hb h,
   is_legacy proto = true ->
-  idle_queue_prompted (env_of proto hb) 0 None h (spec_run proto hb h) = true.
+  idle_queue_prompted (env_of proto hb) 0 None h (impl_run proto hb h) = true.
 Proof. exact idle_prompted_proof. Qed.
 Print Assumptions idle_queue_is_prompted.
 
 (* "for 1.20.3+ packs are tracked per id": for every id at most one prompt is outstanding. *)
 Theorem per_id_tracking : forall proto hb h id,
-  is_legacy proto = false -> Forall (fun c => c <= 1) (outstanding_id id 0 h (spec_run proto hb h)).
+  is_legacy proto = false -> Forall (fun c => c <= 1) (outstanding_id id 0 h (impl_run proto hb h)).
 Proof. exact per_id_proof. Qed.
 Print Assumptions per_id_tracking.
 
@@ -82,53 +90,53 @@ Print Assumptions per_id_tracking.
    the resolutions (client answers GOwn, declines on the client's behalf GAuto) whose pack came from
    the backend or that match no pack; nothing is written without a backend in flight. *)
 Theorem report_iff_backend_origin : forall proto hb h,
-  Forall (fun x => reports (s_events x) = flat_map (expected_report hb) (s_events x)) (spec_run proto hb h).
+  Forall (fun x => reports (s_events x) = flat_map (expected_report hb) (s_events x)) (impl_run proto hb h).
 Proof. exact report_proof. Qed.
 Print Assumptions report_iff_backend_origin.
 
 (* the predicate the judge evaluates on the implementation's record holds for every spec run *)
-Theorem spec_holds_P : forall proto hb h, holds_P proto hb h (spec_run proto hb h) = true.
+Theorem impl_holds_P : forall proto hb h, holds_P proto hb h (impl_run proto hb h) = true.
 Proof. exact spec_holds_P_proof. Qed.
-Print Assumptions spec_holds_P.
+Print Assumptions impl_holds_P.
 
-(* ---------- today's legacy handlers (findings C27-1..3) ---------- *)
+(* ---------- the PRE-FIX legacy handlers (findings C27-1..3, fixed by c3c83c0) ---------- *)
 
-(* C27-1: on every client below 1.20.3 the first QueueResourcePack never returns *)
-Theorem impl_first_queue_always_stuck : forall proto hb id hash f be,
-  is_legacy proto = true -> impl_run proto hb [Queue id hash f be] = [mkStep [] RStuck [] []].
-Proof. exact impl_first_queue_stuck. Qed.
-Print Assumptions impl_first_queue_always_stuck.
-Theorem never_stuck_refuted : exists proto hb h, In RStuck (map s_ret (impl_run proto hb h)).
+(* C27-1 (fixed): before the fix, on every client below 1.20.3 the first QueueResourcePack never returned *)
+Theorem old_first_queue_always_stuck : forall proto hb id hash f be,
+  is_legacy proto = true -> old_run proto hb [Queue id hash f be] = [mkStep [] RStuck [] []].
+Proof. exact old_first_queue_stuck. Qed.
+Print Assumptions old_first_queue_always_stuck.
+Theorem old_never_stuck_refuted : exists proto hb h, In RStuck (map s_ret (old_run proto hb h)).
 Proof. exact never_stuck_refuted_proof. Qed.
-Print Assumptions never_stuck_refuted.
+Print Assumptions old_never_stuck_refuted.
 
-(* C27-2: a response while nothing is queued panics *)
-Theorem impl_response_on_empty_queue_panics : forall proto hb b,
-  is_legacy proto = true -> impl_run proto hb [Response b] = [mkStep [] RPanic [] []].
-Proof. exact impl_response_panics. Qed.
-Print Assumptions impl_response_on_empty_queue_panics.
+(* C27-2 (fixed): before the fix a response while nothing was queued panicked *)
+Theorem old_response_on_empty_queue_panics : forall proto hb b,
+  is_legacy proto = true -> old_run proto hb [Response b] = [mkStep [] RPanic [] []].
+Proof. exact old_response_panics. Qed.
+Print Assumptions old_response_on_empty_queue_panics.
 
-(* C27-3 (behind C27-1): with only the locking repaired a pack is declined on the client's behalf
-   although the client never declined *)
-Theorem auto_decline_refuted : exists proto hb h k x p,
-  nth_error (run_handler RepairedNesting (mkCfg false true) proto hb h) k = Some x /\
+(* C27-3 (fixed): the bool prevResourceResponse of the pre-fix code: with only the locking repaired a
+   pack is declined on the client's behalf although the client never declined *)
+Theorem old_auto_decline_refuted : exists proto hb h k x p,
+  nth_error (run_handler CurrentNesting (mkCfg false true) proto hb h) k = Some x /\
   In (GAuto p) (s_events x) /\ last_decision None (firstn (S k) h) <> Some false.
 Proof. exact auto_decline_refuted_proof. Qed.
-Print Assumptions auto_decline_refuted.
+Print Assumptions old_auto_decline_refuted.
 
-(* off the triggers (histories of Clear / Remove only, or any history on 1.20.3+) today's handlers
-   and the demanded ones agree *)
-Theorem impl_eq_spec_off_trigger : forall proto hb h,
-  forallb quiet h = true -> impl_run proto hb h = spec_run proto hb h.
-Proof. exact impl_eq_spec_off_trigger_proof. Qed.
-Print Assumptions impl_eq_spec_off_trigger.
-Theorem impl_eq_spec_modern : forall proto hb h,
-  is_legacy proto = false -> impl_run proto hb h = spec_run proto hb h.
-Proof. exact impl_eq_spec_modern_proof. Qed.
-Print Assumptions impl_eq_spec_modern.
+(* off the triggers (histories of Clear / Remove only, or any history on 1.20.3+) the pre-fix handlers
+   already behaved as demanded *)
+Theorem old_eq_spec_off_trigger : forall proto hb h,
+  forallb quiet h = true -> old_run proto hb h = spec_run proto hb h.
+Proof. exact old_eq_spec_off_trigger_proof. Qed.
+Print Assumptions old_eq_spec_off_trigger.
+Theorem old_eq_spec_modern : forall proto hb h,
+  is_legacy proto = false -> old_run proto hb h = spec_run proto hb h.
+Proof. exact old_eq_spec_modern_proof. Qed.
+Print Assumptions old_eq_spec_modern.
 
 (* premises are met: a 1.20.2 history in which a decline makes tick decline one pack and prompt a forced one *)
 Example nonvacuous_auto_decline :
-  exists x p, nth_error (spec_run 764 true h_demo) 4 = Some x /\ In (GAuto p) (s_events x) /\ uid p = 1 /\
+  exists x p, nth_error (impl_run 764 true h_demo) 4 = Some x /\ In (GAuto p) (s_events x) /\ uid p = 1 /\
               prompt_uids (s_events x) = [2].
 Proof. exact demo_auto_decline. Qed.
